@@ -330,6 +330,15 @@ def check_unlock(rep, u, fn, enc):
         enc["unlock_stored"] = val
 
 
+# objects are zero-filled at birth: the functions of these units rely on it for every field their constructors do not store
+_run_clauses = run
+
+
+def run(prog, rep):
+    _run_clauses(prog, rep)
+    from plint.wiring import check_zero_init
+    check_zero_init(rep, "C01.4", prog, ['pmutex-posix.c', 'pspinlock-c11.c', 'pspinlock-sync.c', 'pspinlock-sim.c'], 4)
+
 # generic robustness battery: renaming every local/parameter in these files must not change any verdict
 RENAME_LOCALS = ['src/pmutex-posix.c', 'src/pspinlock-c11.c', 'src/pspinlock-sync.c', 'src/pspinlock-sim.c']
 
